@@ -35,7 +35,10 @@ class FirFilter:
     def process(self, x: np.ndarray) -> np.ndarray:
         dtype = x.dtype
         x_full = np.concatenate([self.x_prev, x])
-        self.x_prev = x[-(self.N - 1):]
+        # keep the last N - 1 samples of everything seen so far
+        # (a block may be shorter than the filter)
+        n_keep = min(self.N - 1, np.size(x_full))
+        self.x_prev = x_full[np.size(x_full) - n_keep:].astype(dtype)
         y = self.convolve_valid(x_full, self.h).astype(dtype)
         return y
 
